@@ -17,6 +17,7 @@ E(d) == IF d = 0 THEN Leaves
              S \cup {[k |-> c, e |-> x] : c \in {"vec", "array", "slice", "option", "ref", "path"}, x \in S}
                \cup {[k |-> "wrap", w |-> w, e |-> x] : w \in Wrappers, x \in S}
                \cup {[k |-> "map", key |-> KeyOf(kn), val |-> x] : kn \in MapKeys, x \in S}
+               \cup {[k |-> "map3", key |-> KeyOf("String"), val |-> x] : x \in S}            \* HashMap<String, x, RandomState>
                \cup {[k |-> "user", n |-> "Gen", args |-> <<x>>] : x \in S}
 
 Init == t \in E(Depth)
